@@ -67,6 +67,8 @@ namespace {
                os << '}';
             }
             (void)(*static_cast<const ipr::Scope*>(in.w.unit.global_scope()))[id];
+            // an initializer whose spelling needs escapes and belongs to this thread alone
+            v->init = in.w.lex.make_literal(in.w.lex.int_type(), vh::u8("thread" + std::to_string(t) + "\n\tstep" + std::to_string(k) + "\\\1"));
             v->src_locus.file = ipr::File_index{static_cast<std::uint32_t>(1 + t)};
             v->src_locus.line = ipr::Line_number{static_cast<std::uint32_t>(1000 * (1 + t) + k)};
             v->src_locus.column = ipr::Column_number{static_cast<std::uint32_t>(1 + t)};
